@@ -29,7 +29,7 @@ FRAME_METHODS = [
     "sort_desc", "select", "unselect", "rename", "modify", "modify_callable", "modify_grouped", "cbind", "rbind", "update",
     "left_join", "inner_join", "semi_join", "anti_join", "full_join", "count", "aggregate", "aggregate_lambda", "split", "map",
     "to_list_of_dicts", "to_json", "to_pandas", "to_arrow", "to_string", "print_na_counts", "print_memory_use", "deepcopy",
-    "copy", "group_by", "compare_self",
+    "copy", "group_by", "compare_self", "filter_rows_and_pairs", "filter_out_rows_and_pairs", "bad_call", "bad_call",
 ]
 VECTOR_METHODS = [
     "as_boolean", "as_float", "as_integer", "as_object", "as_string", "as_bytes", "as_date", "as_datetime", "concat",
@@ -166,6 +166,18 @@ def _check_independent(what, result, operands, snaps_of):
 
 # -- frame calls --------------------------------------------------------------------------------
 
+class _ShouldHaveRaised(Exception):
+    pass
+
+
+def _grouped_bad(x, bad):
+    g = tuple(x._group_colnames)
+    try:
+        return x.group_by(bad).aggregate(n=di.count())
+    finally:
+        x._group_colnames = g                  # group_by marks its receiver by design: taken back here
+
+
 def _call_frame(m, x, y, a):
     n = x.nrow
     names = list(dict.keys(x))
@@ -173,6 +185,28 @@ def _call_frame(m, x, y, a):
     by = ["k"] if "k" in x and "k" in y else []
     rnd = random.Random(a)
     if m == "filter": return x.filter(np.array([rnd.random() < 0.6 for _ in range(n)], dtype=bool))
+    if m in ("filter_rows_and_pairs", "filter_out_rows_and_pairs") and first and n:
+        # both a condition array and column=value pairs: the condition is the caller's object (an ndarray, a Vector
+        # or one of the receiver's own boolean columns) and must come back untouched
+        mask = np.array([rnd.random() < 0.6 for _ in range(n)], dtype=bool)
+        cond = [mask, di.Vector(mask), mask.astype(np.int64), mask.view(di.DataFrameColumn)][a % 4]
+        before = build.snap_array(cond)
+        res = getattr(x, m.split("_rows")[0])(cond, **{first: x[first][a % n]})
+        if build.snap_array(cond) != before:
+            raise Violation(f"{m.split('_rows')[0]}(rows, **pairs) changed the condition array it was given", form=type(cond).__name__)
+        return res
+    if m in ("filter_rows_and_pairs", "filter_out_rows_and_pairs"): return x.filter(np.array([], dtype=bool)) if not n else x.copy().deepcopy()
+    if m == "bad_call":
+        # a call that has to fail (unknown column, wrong length ...): whatever it raises, _check_frame requires that it
+        # leaves the operands - values, columns and grouping - exactly as they were
+        bad = "no such column"
+        calls = [lambda: x.count(bad), lambda: x.sort(**{bad: 1}), lambda: x.select(bad), lambda: x.rename(**{"new": bad}),
+                 lambda: x.left_join(y, bad), lambda: x.full_join(y, bad), lambda: _grouped_bad(x, bad),
+                 lambda: x.filter(np.ones(n + 1, dtype=bool)), lambda: x.modify(new=np.arange(n + 2)), lambda: x.unique(bad),
+                 lambda: x.drop_na(bad), lambda: x.cbind(di.DataFrame(zz=np.arange(n + 2))), lambda: x.count(), lambda: x.anti_join(y, bad),
+                 lambda: x.update(di.DataFrame(zz=np.arange(n + 2))), lambda: x.slice(rows=[n + 5])]
+        calls[a % len(calls) if a < 8 else rnd.randrange(len(calls))]()
+        raise _ShouldHaveRaised()
     if m == "filter_out": return x.filter_out(lambda d: np.array([i % 2 == a % 2 for i in range(d.nrow)], dtype=bool))
     if m == "filter_kv": return x.filter(**{first: x[first][0]}) if n else x.filter(np.array([], dtype=bool))
     if m == "slice":
@@ -270,7 +304,13 @@ def _check_frame(plan, ctx):
             finally:
                 for col in frozen:
                     col.flags.writeable = True
+        except Violation:
+            raise
         except Exception as e:
+            if isinstance(e, _ShouldHaveRaised):
+                ctx.cls("bad_call_did_not_raise")          # tolerated (e.g. count() without columns may be defined): state still checked
+            elif m == "bad_call":
+                ctx.cls("bad_call_raised")
             if m in ("modify_grouped", "aggregate", "aggregate_lambda"):
                 x._group_colnames = snaps[0][2]
             if pregrouped is not None:
